@@ -307,10 +307,27 @@ def main(argv):
                         "samples": [{"contract": r["contract"], "evaluations": r["evaluations"], "skipped": r["skipped"]} for r in sres][:40],
                         "harness_notes": sampling_notes[:10],
                         "violations": sviol[:6], "seconds": round(sum(r["seconds"] for r in sres), 2)})
+    import signal as _signal
+
+    class _Hang(BaseException):
+        pass
+
+    def _hang(*a):
+        raise _Hang()
     for bname in cfg.get("bounded", []):
+        limit = 1800 if tier == "quick" else 4 * 3600       # (the modules take seconds to minutes)
         try:
             bm = importlib.import_module(bname)
-            br = bm.run(tier=tier, seed=seed)
+            old_h = _signal.signal(_signal.SIGALRM, _hang)
+            _signal.alarm(limit)
+            try:
+                br = bm.run(tier=tier, seed=seed)
+            finally:
+                _signal.alarm(0)
+                _signal.signal(_signal.SIGALRM, old_h)
+        except _Hang:
+            errors.append("bounded check %s did not finish within %d s: a call into the code under test does not return" % (bname, limit))
+            continue
         except Exception:
             errors.append("bounded check %s crashed:\n%s" % (bname, traceback.format_exc()))
             continue
